@@ -192,6 +192,56 @@ def exactness_check(pid: str, part: str) -> int:
                     case.update(impl=x["impl"][:3000], model=x["model"][:3000])
                     disagreements.append(case)
 
+    # ---- T3-render: the rendering function of Lemma A lays the core fragment out like the parser does ---------
+    if part == "tables":
+        def frag(st):
+            def q_(q, top):
+                if q[0] == "select":
+                    return all((i[0] == "star" and "." not in (i[1] or "")) or (i[0] == "expr" and i[1][0] == "col" and "." not in (i[1][1] or "")) for i in q[1]) and \
+                        all(rr[0] == "table" or (rr[0] == "derived" and q_(rr[1], False)) for rr in q[2]) and (q[4] is None or q_(q[4][1], False))
+                if q[0] == "union":
+                    return q[1][0] == "select" and q[2][0] == "select" and q_(q[1], False) and q_(q[2], False)
+                return top and q[2][0] != "with" and q[3][0] != "with" and q_(q[2], False) and q_(q[3], False)
+            qq = astgen.stmt_query(st)
+            return qq is not None and q_(qq, True)
+        fr = [st for st in stmts if frag(st)]
+        extra = 0
+        while len(fr) < (150 if quick else 1500) and extra < 20000:
+            extra += 1
+            st = astgen.gen_stmt(r, r.choice([0, 1, 2]), False)
+            if frag(st):
+                fr.append(st)
+        from sqllineage.core.parser.sqlfluff.analyzer import SqlFluffLineageAnalyzer
+
+        def show(x):
+            kids = [k for k in x.segments if not (k.is_whitespace or k.is_comment or k.is_meta)]
+            head = x.type + "/" + x.get_type() + "/" + ",".join(sorted(c for c in x.class_types if c != "base"))
+            return head + ("=" + x.raw if not x.segments else "(" + " ".join(show(k) for k in kids) + ")")
+        an = SqlFluffLineageAnalyzer(".", "ansi")
+        rend = coq_eval("From SV Require Import Tree.Render Tree.LemmaA Tree.LemmaAProofs.\nOpen Scope string_scope.",
+                        ["(show_render %s ++ \"|\" ++ (if stmt_ok %s && sshape %s then \"in\" else \"out\"))%%string"
+                         % (astgen.g_stmt(st), astgen.g_stmt(st), astgen.g_stmt(st)) for st in fr], shard=100)
+        dist["render_checked"], dist["in_lemma_A_fragment"] = 0, 0
+        for st, m in zip(fr, rend):
+            sql = astgen.to_sql(st, astgen.Opts(kw_case="lower", trailing=""))
+            ck.count()
+            try:
+                i_tree = show(an._list_specific_statement_segment(sql)[0])
+            except Exception as e:
+                i_tree = "ERR:" + type(e).__name__
+            m_tree, _, inside = m.rpartition("|")
+            if inside != "in":
+                dist["outside_lemma_A_fragment"] = dist.get("outside_lemma_A_fragment", 0) + 1
+                continue        # the theorem (and the rendering) speak about stmt_ok && sshape only
+            dist["render_checked"] += 1
+            dist["in_lemma_A_fragment"] += 1
+            ck.nontriv(("render", sql))
+            if i_tree != m_tree:
+                k = next((j for j in range(min(len(i_tree), len(m_tree))) if i_tree[j] != m_tree[j]), 0)
+                disagreements.append({"suite": "T3-render", "sql": sql, "ast": astgen.g_stmt(st), "parser_tree": i_tree[max(0, k - 200):k + 300],
+                                      "rendered_tree": m_tree[max(0, k - 200):k + 300],
+                                      "detail": "Tree/Render.v (the function Lemma A, c01_exact_on_rendered_core, is stated about) no longer lays the statement out like the parser"})
+
     # ---- corpus: test-suite SQL, tie only (no specification for arbitrary SQL) -------------------
     recs = [x for x in corpus.load() if x["dialect"] != "non-validating" and (not quick or not x.get("origin", "").startswith("tpcds"))]
     for x in run(recs):
